@@ -19,7 +19,7 @@ from __future__ import annotations
 from argparse import Namespace
 from typing import Any, Dict, List
 
-from .common import call, same, is_symbolic, PathAbort, replay_tiers
+from .common import call, same, is_symbolic, PathAbort, replay_tiers, mk_array
 from .c06 import FakeDF, _with_fake_df
 
 PROP = "C19"
@@ -337,6 +337,123 @@ def make_fit_glue_harness():
     return harness
 
 
+def make_simulate_glue_harness():
+    """cli circuit --simulate: every circuit given on the command line is simulated by the API at the frequencies _interpolate returns for
+    [--max-frequency, --min-frequency] and --num-per-decade, the table handed to the formatter is that simulation, and the marked frequencies
+    (--mark-frequency) are simulated with the same circuit"""
+    def harness(eng):
+        import pyimpspec
+        import pyimpspec.cli.circuit as cc
+        import pyimpspec.analysis.utility as au
+        from pyimpspec import parse_cdc
+        from sx.symnp import asarr
+        eng.div_zero_policy = "assume"
+        eng.symbolic_pi = False
+        n_circ = 1 + eng.choice(2, "second_circuit")
+        circuits = []
+        for k in range(n_circ):
+            c = parse_cdc(("RC", "RL")[k])
+            for j, e in enumerate(c.get_elements()):
+                for key in e.get_values():
+                    v = eng.real("c%d.e%d.%s" % (k, j, key))
+                    eng.assume(v > 0)
+                    e.set_values(**{key: v})
+            circuits.append(c)
+        fmax, fmin = eng.real("max_frequency"), eng.real("min_frequency")
+        eng.assume(fmin > 0)
+        eng.assume(fmax > fmin)
+        npd = eng.integer("num_per_decade")
+        eng.assume(npd >= 1)
+        grid = [eng.real("grid%d" % i, npy=True) for i in range(2)]
+        marks = [eng.real("mark%d" % i, npy=True) for i in range(eng.choice(2, "marked"))]
+        for f in grid + marks:
+            eng.assume(f > 0)
+        eng.assume(grid[0] > grid[1])
+        overlay = eng.choice(2, "plot_overlay") == 1
+        args = Namespace(input=["a", "b"][:n_circ], min_frequency=fmin, max_frequency=fmax, num_per_decade=npd, mark_frequency=list(marks), plot_overlay=overlay,
+                         plot_type="nyquist", plot_no_legend=False, plot_colored_axes=False, plot_admittance=False, plot_title=True, annotate_frequency=False,
+                         output=False, output_name=[], output_dir=".", output_format="csv", output_indices=False, output_significant_digits=6, plot_format="png", plot_dpi=100)
+        interp_calls, frames, printed, plotted, overlays = [], [], [], [], []
+
+        def interpolate(rng, num_per_decade):
+            interp_calls.append((list(rng), num_per_decade))
+            return mk_array(eng, list(grid))
+
+        def fmt(df, a):
+            frames.append(df)
+            return "TABLE%d" % len(frames)
+
+        class Mpl(_FakeMpl):
+            pass
+        mpl = Mpl()
+
+        def plot_nyquist(data, **kw):
+            plotted.append((data, dict(kw)))
+            return (_FakeFigure(), [_FakeAxis(), _FakeAxis()])
+        mpl.plot_nyquist = plot_nyquist
+        saved = (pyimpspec.mpl, au._interpolate, cc.parse_circuits, cc.format_text, cc.plt, cc.get_backend, cc.overlay_plot)
+        pyimpspec.mpl, au._interpolate = mpl, interpolate
+        cc.parse_circuits, cc.format_text, cc.plt, cc.get_backend = (lambda a: list(circuits)), fmt, _FakePlt(), (lambda: "qtagg")
+        cc.overlay_plot = lambda ds_, marked, plot, a: overlays.append((list(ds_), list(marked)))
+        try:
+            ok, res = call(lambda: _with_fake_df(lambda: cc.simulate_spectra(args, printed.append)))
+        finally:
+            pyimpspec.mpl, au._interpolate, cc.parse_circuits, cc.format_text, cc.plt, cc.get_backend, cc.overlay_plot = saved
+        eng.check(ok, "simulate:completes", lambda: "%s: %s" % (type(res).__name__, res))
+        if not ok:
+            return
+        eng.check(len(interp_calls) == n_circ, "simulate:one frequency grid per circuit")
+        for rng, k in interp_calls:
+            eng.check(len(rng) == 2 and same(rng[0], fmax) and same(rng[1], fmin) and same(k, npd),
+                      "simulate:the frequency grid is asked for with the command-line range and density", lambda: "%r %r" % (rng, k))
+        if overlay:
+            eng.check(len(overlays) == 1, "simulate:one overlay plot")
+            sims, marked = overlays[0] if overlays else ([], [])
+        else:
+            sims = [d for d, kw in plotted if kw.get("line", None) is not False or "figure" not in kw]
+            marked = [d for d, kw in plotted if "figure" in kw]
+            eng.check(len(frames) == n_circ, "simulate:one table per circuit", lambda: "%d tables" % len(frames))
+        eng.check(len(sims) == n_circ and len(marked) == (n_circ if marks else 0), "simulate:every circuit is simulated (and marked) once",
+                  lambda: "%d simulations, %d marked" % (len(sims), len(marked)))
+        if len(sims) != n_circ or len(marked) != (n_circ if marks else 0):
+            return
+
+        def compare(data, circuit, freqs, tag):
+            F, Z = list(data.get_frequencies().flat), list(data.get_impedances().flat)
+            want = list(asarr(circuit.get_impedances(mk_array(eng, list(freqs)))).flat)
+            eng.check(len(F) == len(freqs), tag + ":number of points")
+            if len(F) != len(freqs):
+                return
+            order = sorted(range(len(freqs)), key=lambda i: 0) if len(freqs) < 2 else (list(range(len(freqs))) if bool(freqs[0] > freqs[1]) else list(reversed(range(len(freqs)))))
+            for g, i in zip(range(len(F)), order):
+                eng.check(same(F[g], freqs[i]), tag + ":frequencies", lambda: "%r vs %r" % (F[g], freqs[i]))
+                eng.check(same(Z[g], want[i]), tag + ":impedances are those of the API for the same circuit", lambda: "%r vs %r" % (Z[g], want[i]))
+        for k in range(n_circ):
+            compare(sims[k], circuits[k], grid, "simulate:spectrum")
+            eng.check(sims[k].get_label() == circuits[k].to_string(), "simulate:labelled with the circuit's code")
+            if marks:
+                compare(marked[k], circuits[k], marks, "simulate:marked")
+        if not overlay:
+            for k, df in enumerate(frames):
+                rows = df.values
+                eng.check(len(rows) == len(grid), "simulate:the table holds the simulated points")
+                if len(rows) != len(grid):
+                    continue
+                cols = list(df.columns)
+                want = list(asarr(circuits[k].get_impedances(mk_array(eng, list(grid)))).flat)
+                for i, row in enumerate(rows):
+                    rec = dict(zip(cols, row))
+                    fkey = [c for c in cols if c.lower().startswith("f")][0]
+                    rkey = [c for c in cols if c.lower().startswith("re")][0]
+                    ikey = [c for c in cols if "im(" in c.lower()][0]
+                    eng.check(same(rec[fkey], grid[i]), "simulate:table frequencies")
+                    zi = rec[ikey] if not ikey.startswith("-") else -rec[ikey]
+                    eng.check(same(rec[rkey], want[i].real) and same(zi, want[i].imag), "simulate:table = API impedances of that circuit",
+                              lambda: "row %d of circuit %d: %r" % (i, k, rec))
+        eng.reached("simulate")
+    return harness
+
+
 def make_drt_glue_harness():
     """cli drt --plot-overlay: each spectrum's tables (statistics, peaks above the requested threshold, scores for BHT) come from that
     spectrum's own result, computed with the settings given on the command line"""
@@ -442,6 +559,13 @@ def obligations(tier: str):
                           functions=[cf.command], stubs=gstubs, expect_reach=["fitcmd"]))
     obs.append(Obligation("drt.glue", make_drt_glue_harness(), bounds="cli drt --plot-overlay: 2..3 spectra, symbolic peak threshold (any sign), lambda and max_nfev, methods tr-nnls / bht",
                           functions=[cd.overlay_plot], stubs=gstubs, expect_reach=["drtcmd"]))
+    import pyimpspec.cli.circuit as cc
+    import pyimpspec.circuit.circuit as circ
+    obs.append(Obligation("simulate.glue", make_simulate_glue_harness(), bounds="cli circuit --simulate: 1..2 circuits with symbolic parameter values, symbolic frequency range and density, "
+                          "0..1 marked frequencies, individual or overlay plots; two-point frequency grid",
+                          functions=[cc.simulate_spectra, cc.individual_plots, circ.Circuit.get_impedances],
+                          stubs=["_interpolate is a recorder returning a symbolic two-point grid; parse_circuits returns circuits with symbolic values; pyimpspec.mpl, matplotlib.pyplot, "
+                                 "format_text, overlay_plot are stand-ins"], expect_reach=["simulate", "simulate:table = API impedances of that circuit"]))
     for o in obs:
         o.replay = o.harness
     return obs
@@ -454,7 +578,7 @@ EXPLANATION = (
 )
 ASSUMPTIONS = ["identifiers contain ':' only inside brackets (mock identifiers have none; in a circuit description code a colon only occurs inside braces)",
                "value texts contain no white space, none of ':' ',' '=' '_', no brackets and none of the letters of inf / nan / infinity (those spellings are outside)", "floats as reals; numerals as uninterpreted numbers"]
-OUTSIDE = ["text formatting of numbers (pandas to_csv / to_markdown / to_json / to_latex)", "argparse, configuration files, output files", "the commands circuit --simulate, test, zhit, plot and "
+OUTSIDE = ["text formatting of numbers (pandas to_csv / to_markdown / to_json / to_latex)", "argparse, configuration files, output files", "the commands test, zhit, plot and "
            "drt without --plot-overlay; matplotlib and the numerical pipelines behind fit / drt (only what the commands hand to the API and which result they print is decided)", "--average-data-sets", "that generate_mock_data itself is deterministic (C17)"]
 
 
